@@ -123,4 +123,65 @@ PROPS = {
         'not_covered': ['Memvid::search_vec dimension validation', 'results after close and reopen', 'HNSW / product-quantised representations', 'more than 5 documents (bounded)'],
         'search': 'vec',
     },
+
+    'C37': {
+        'title': 'Adaptive retrieval cut-off respects its bounds',
+        'level': 'model_checking',
+        'level_text': 'BOUNDED in the list length (n <= 5; n <= 3 quick), every finite f32 score, every min_results, every finite parameter (Kani/CBMC, floats bit-precise, inside the real crate). Helper contracts proved on the real helpers: find_absolute_cutoff satisfies min(min_results,n) <= r <= n, every kept result beyond min_results has score >= t, and the result just after the cut is < t; find_cliff_cutoff / find_combined_cutoff / find_elbow_cutoff satisfy the bound clause. find_adaptive_cutoff is verified MODULARLY against those contracts (helpers replaced by contract stubs that assert the precondition and return any value the postcondition allows): bound clause for every strategy, threshold clause for Absolute / Relative on the list the function actually used, threshold = configured value resp. top score x ratio. Normalisation: normalize_scores yields values in [0,1] with the maximum mapped to 1 for every list of n <= 3 scores drawn from a table of 12 extreme f32 values (exhaustive over the table).',
+        'level_note': 'Bounded by list length. The normalisation clause is decided only on the 12-value table (range overflow, ties, denormals, signs, 2^24+1); for fully symbolic scores the f64 division gives no answer within the caps even at n = 2 (kept in the thorough tier only as far as it answers). In dispatcher harnesses with normalize_scores = true, normalize_scores is replaced by an assumed contract (same length, finite values).',
+        'technique': 'Kani bounded harnesses: helper contracts proved per function, dispatcher verified against contract stubs (modular)',
+        'design_ref': 'DESIGN.md section 3 (C37)',
+        'verus': [],
+        'kani': (
+            [H(ADP, 'absolute_contract_n%d' % n, 'quick' if n <= 3 else 'thorough', 'bounded', '%d scores' % n) for n in range(0, 6)] +
+            [H(ADP, 'cliff_contract_n%d' % n, 'quick' if n <= 3 else 'thorough', 'bounded', '%d scores' % n) for n in range(0, 5)] +
+            [H(ADP, 'combined_contract_n%d' % n, 'quick' if n <= 3 else 'thorough', 'bounded', '%d scores' % n) for n in range(0, 5)] +
+            [H(ADP, 'elbow_contract_n%d' % n, 'quick' if n <= 2 else 'thorough', 'bounded', '%d scores' % n) for n in range(1, 5)] +
+            [H(ADP, n, t, 'bounded', b, playback=False) for n, t, b in [
+                ('dispatch_empty', 'quick', '0 scores'),
+                ('dispatch_absolute_n3_raw', 'quick', '3 scores'), ('dispatch_cliff_n3_raw', 'quick', '3 scores'),
+                ('dispatch_elbow_n3_raw', 'quick', '3 scores'), ('dispatch_combined_n3_raw', 'quick', '3 scores'),
+                ('dispatch_absolute_n3_norm', 'quick', '3 scores'), ('dispatch_combined_n3_norm', 'quick', '3 scores'),
+                ('dispatch_relative_table_n3_raw', 'quick', '3 scores, ratio from {0, 0.25, 0.5, 0.75, 1}'),
+                ('dispatch_relative_table_n3_norm', 'quick', '3 scores, ratio from {0, 0.25, 0.5, 0.75, 1}'),
+                ('dispatch_relative_table_n5_raw', 'thorough', '5 scores, ratio from {0, 0.25, 0.5, 0.75, 1}'),
+                ('dispatch_absolute_n1_raw', 'quick', '1 score'), ('dispatch_absolute_n5_raw', 'thorough', '5 scores'),
+                ('dispatch_elbow_n5_norm', 'thorough', '5 scores'), ('dispatch_cliff_n5_norm', 'thorough', '5 scores'),
+                ('dispatch_combined_n5_raw', 'thorough', '5 scores'),
+                ('dispatch_relative_n2_raw', 'thorough', '2 scores, every finite ratio'),
+                ('dispatch_relative_n3_raw', 'thorough', '3 scores, every finite ratio'),
+            ]] +
+            [H(ADP, 'normalize_range_n1', 'quick', 'bounded', '1 score, every finite value'),
+             H(ADP, 'normalize_table_n2', 'quick', 'bounded', '2 scores from the 12-value table'),
+             H(ADP, 'normalize_table_n3', 'thorough', 'bounded', '3 scores from the 12-value table')]
+        ),
+        'assumptions': [A_TOOLS, A_TRACE, 'scores and parameters are finite and not NaN (the quantifier of C37: "NaN-free extremes")',
+                        'alloc::fmt::format is stubbed to an empty String in the helper harnesses (the reason text plays no role)',
+                        'A-NORM: in dispatcher harnesses with normalisation on, normalize_scores is replaced by an assumed contract (same length, finite values)'],
+        'not_covered': ['normalize_scores for fully symbolic scores with n >= 2 (f64 division: no answer within the caps)', 'lists longer than 5 (bounded)'],
+        'search': 'adaptive',
+    },
+    'C35': {
+        'title': 'Snippet slices are valid, ordered, bounded ranges',
+        'level': 'model_checking',
+        'level_text': 'prev_char_boundary and next_char_boundary: UNBOUNDED Verus proof on the functions extracted verbatim from src/lex.rs (result <= len, on a char boundary, nearest boundary at/below resp. at/above the index; termination). All five helpers (prev/next_char_boundary, sentence_start_before, sentence_end_after, advance_boundary) carry Kani function contracts proved by proof_for_contract over EVERY valid UTF-8 string of exactly L <= 4 bytes (L <= 3 quick) and every usize index. compute_snippet_slices is verified MODULARLY against those contracts (stub_verified): every slice is non-empty, inside the text, on char boundaries, strictly increasing and non-overlapping, at most max_snippets, slicing never panics, no arithmetic overflow - for every (usize,usize) occurrence value, every window, every max; content length L <= 4 bytes x k <= 3 occurrences (BOUNDED).',
+        'level_note': 'Bounded by text length (<= 4 bytes, which includes every 1-4 byte scalar and mixes) and occurrence count (<= 3). The helpers sentence_start_before / sentence_end_after / advance_boundary iterate with char_indices, which Verus rejects, so their contracts are bounded.',
+        'technique': 'Kani function contracts (proof_for_contract + stub_verified, modular) on the real functions; Verus loop invariants for the two char-boundary helpers',
+        'design_ref': 'DESIGN.md section 3 (C35)',
+        'verus': ['lex'],
+        'kani': (
+            [H(LEX, '%s_l%d' % (nm, l), 'quick' if l <= (3 if nm in ('prev_boundary_contract', 'next_boundary_contract', 'advance_contract') else 2) else 'thorough', 'bounded', 'every valid UTF-8 string of %d bytes' % l, playback=False)
+             for l in (1, 2, 3, 4) for nm in ('prev_boundary_contract', 'next_boundary_contract', 'sentence_start_contract', 'sentence_end_contract', 'advance_contract')] +
+            [H(LEX, n, t, 'bounded', b, playback=False) for n, t, b in [
+                ('snippet_slices_l0_k1', 'quick', 'empty text, 1 occurrence'), ('snippet_slices_l1_k0', 'quick', '1 byte, 0 occurrences'),
+                ('snippet_slices_l1_k1', 'quick', '1 byte, 1 occurrence'), ('snippet_slices_l2_k1', 'quick', '2 bytes, 1 occurrence'),
+                ('snippet_slices_l3_k1', 'quick', '3 bytes, 1 occurrence'), ('snippet_slices_l2_k2', 'quick', '2 bytes, 2 occurrences'),
+                ('snippet_slices_l3_k2', 'thorough', '3 bytes, 2 occurrences'), ('snippet_slices_l4_k2', 'thorough', '4 bytes, 2 occurrences'),
+                ('snippet_slices_l3_k3', 'thorough', '3 bytes, 3 occurrences')]]
+        ),
+        'assumptions': [A_TOOLS, A_TRACE, 'A-STR: str::is_char_boundary(0) and (len) hold and it is false beyond len (std documentation; axioms in the Verus unit, executed bit-precisely under Kani)',
+                        'compute_snippet_slices sees its helpers only through their contracts (stub_verified): a helper change is caught by the helper\'s own proof_for_contract'],
+        'not_covered': ['texts longer than 4 bytes / more than 3 occurrences (bounded)'],
+        'search': 'lex',
+    },
 }
